@@ -1,6 +1,7 @@
 #![allow(dead_code, unused_imports)]
 mod alloc;
 mod ep;
+mod matrix;
 mod model;
 mod rng;
 mod runner;
